@@ -58,6 +58,15 @@ def solo_value(k, items):
     return v
 
 
+def quiet_solve(formula):
+    """Optimal value of a compiled program through ECOS (None if not solved)."""
+    from rsome import eco_solver
+    sol = eco_solver.solve(formula, display=False)
+    if sol is None or sol.x is None or (isinstance(sol.objval, float) and math.isnan(sol.objval)):
+        return None
+    return float(sol.objval)
+
+
 def rng_hash():
     st = np.random.get_state()
     return hashlib.sha1(st[1].tobytes() + str(st[2:]).encode()).hexdigest()
@@ -105,6 +114,7 @@ def _replay(job, phase):
     m2_st = 0
     r0 = rng_hash()
     last_solution = None
+    contradicted = False
     for si, step in enumerate(hist):
         act, args, expect = step['act'], step['args'], step['expect']
         phase[0] = '%s@%d' % (act, si)
@@ -136,6 +146,41 @@ def _replay(job, phase):
                     finding('C19', 'C19:repeated-do_math-differs:%s' % act, 'two formulations without intervening change differ')
                 if formula_sig(f1) != s1:
                     finding('C19', 'C19:formula-mutated-by-do_math:%s' % act, 'a returned formula was modified by the next do_math call')
+                if not primal and expect == 'ok' and not contradicted:
+                    # the returned dual must be the dual of the model AS DECLARED NOW: its optimum is minus the optimum of the
+                    # current primal (a dual program kept from before the last change has the old optimum)
+                    pv, dv = quiet_solve(m.do_math(True)), quiet_solve(f1)
+                    if pv is None or dv is None or abs(pv) > 1e6:
+                        notes.append('inconclusive')
+                    else:
+                        tol = 5e-4 * (1 + abs(pv))
+                        if abs(pv + dv) > 10 * tol:
+                            for pr in ('C09', 'C19', 'C08'):
+                                finding(pr, '%s:dual-program-not-of-current-model' % pr,
+                                        'step %d: do_math(primal=False) returned a program with optimum %.6g while the primal of the current declaration has optimum %.6g' % (si, dv, pv), step=si)
+                        elif abs(pv + dv) > tol:
+                            notes.append('inconclusive')
+            elif act == 'contradict':
+                m.st(t[0] <= -20)
+                contradicted = True
+            elif act == 'read':
+                got = {}
+                for name, fn in (('model.get', lambda: m.get()), ('var.get', lambda: t.get()), ('slice.get', lambda: t[0].get())):
+                    try:
+                        fn()
+                        got[name] = 'returned'
+                    except Exception as e:
+                        tb_ = __import__('traceback').extract_tb(e.__traceback__)
+                        if not any('/rsome/' in fr.filename for fr in tb_):
+                            raise
+                        got[name] = 'raised'
+                for name, o in sorted(got.items()):
+                    if expect == 'err' and o == 'returned':
+                        finding('C17', 'C17:results-readable-without-solution:%s' % name,
+                                'step %d: %s() returned a value although the last solve produced no solution / nothing was solved' % (si, name), step=si)
+                    if expect == 'ok' and o == 'raised':
+                        finding('C12', 'C12:results-unreadable-after-solve:%s' % name, 'step %d: %s() raised although the last solve succeeded' % (si, name), step=si)
+                expect = 'handled'
             elif act in ('solve', 'soc_solve'):
                 fbefore = None
                 try:
@@ -201,6 +246,12 @@ def _replay(job, phase):
                 finding('C17', 'C17:unformulable-model-compiled:%s' % act, '%s succeeded although a robust constraint has no set / there is no objective' % act)
             else:
                 finding('C17', 'C17:error-expected:%s' % act, 'step %d %s should raise' % (si, act))
+        if expect == 'fail':
+            if raised is not None:
+                finding('C17', 'C17:solve-of-infeasible-model-raised:%s' % raised.split(':')[0], 'step %d: %s raised %s instead of reporting that no solution is available' % (si, act, raised))
+                break
+            if m.solution is not None and not (isinstance(m.solution.objval, float) and math.isnan(m.solution.objval)):
+                finding('C17', 'C17:infeasible-model-solved:%s' % act, 'step %d: %s reports a solution for a model containing t >= -10 and t <= -20' % (si, act))
         if expect == 'ok' and raised is not None:
             owner = 'C09' if act in ('solve', 'soc_solve', 'do_math', 'do_math_dual', 'st', 'forall', 'obj', 'mk', 'late_rvar', 'late_row') else 'C17'
             finding(owner, '%s:unexpected-exception:%s:%s' % (owner, act, raised.split(':')[0]), 'step %d %s raised %s' % (si, act, raised))
